@@ -170,6 +170,8 @@ type World struct {
 	lenBefore      int  // log length before the write in progress
 	heldFirst      map[string]chan struct{}
 	heldTaken      map[string]chan struct{}
+	spinStop  chan struct{} // events family: readers spinning on the view
+	spinWG    sync.WaitGroup
 	lastStore iface.Store // address family: the store of the last successful createdb
 	acSimple  bool     // scenario flag ac=simple: the `simple` access controller instead of the default `ipfs` one
 	acWrite   []string // its write list
@@ -877,6 +879,11 @@ func (w *World) resetScenario(id string) {
 }
 
 func (w *World) closeStores() {
+	if w.spinStop != nil {
+		close(w.spinStop)
+		w.spinStop = nil
+		w.spinWG.Wait()
+	}
 	w.saveCurrentDB()
 	for _, d := range w.dbs {
 		for p, s := range d.stores {
